@@ -39,8 +39,10 @@ def A(code, data, flags=0x40, vendor=0):
 # ---------------------------------------------------------------------------
 def build_msg(m: dict) -> bytes:
     k = m["k"]
-    host = m.get("host", "peer1.example").encode()
-    realm = m.get("realm", NODE_REALM).encode()
+    host = m.get("host", "peer1.example")
+    host = host if isinstance(host, bytes) else host.encode()       # bytes: identities that are not UTF-8
+    realm = m.get("realm", NODE_REALM)
+    realm = realm if isinstance(realm, bytes) else realm.encode()
     hbh, e2e = m.get("hbh", 1), m.get("e2e", 1)
     flags = m.get("flags")
     body = b""
@@ -204,6 +206,8 @@ class NodeWorld:
                            policy=cfg.get("policy", "fifo"),
                            yield_all=cfg.get("yield_all", False)).install()
         self.net = self.k.net
+        if cfg.get("rng") is not None:
+            self.k.rng = cfg["rng"]              # a scripted random.Random for the code under test
         self.conns: list[Conn] = []
         self.requests_seen: list[dict] = []      # handle_request invocations
         self.answers_seen: list[dict] = []       # handle_answer invocations
@@ -314,6 +318,10 @@ class NodeWorld:
         rec["behaviour"] = behaviour
         if behaviour == "raise":
             raise RuntimeError("handler failure injected by the harness")
+        if behaviour == "block-then-hold":
+            # a handler of a basic application that takes its time (it runs in the connection's reader thread)
+            sk._sim_sleep(app._verif_cfg.get("slow_s", 3))
+            return None
         if behaviour == "none" or behaviour == "hold":
             return None
         if behaviour == "slow":
